@@ -159,6 +159,15 @@ for k,(b,n,h) in N5.items():
     m['check_result_quick']=res.get(k,m.get('check_result_quick',''))[:200]
     json.dump(m,open(p,'w'),indent=1,ensure_ascii=False)
 
+
+# ---- changes that break (also) another property and are caught by that property's check (each verified with mutants/run.sh)
+OTHER={"C01-r2-3":"C16","C02-r2-3":"C16","C04-r2-3":"C16","C05-r2-3":"C16","C15-r2-2":"C16","C10-r2-2":"C16","C01-r3-3":"C19","C17-r3-3":"C19","C04-r3-2":"C15","C04-r3-3":"C05","C09-r3-1":"C16","C09-r3-2":"C03","C09-r3-3":"C05","C01-2":"C16","C17-2":"C16","C09-2":"C15","C14-1":"C15","C14-2":"C15"}
+for k,other in OTHER.items():
+    p='/verif/seeded/%s/meta.json'%k
+    if os.path.exists(p):
+        m=json.load(open(p)); m['also_caught_by_check_of']=other
+        json.dump(m,open(p,'w'),indent=1,ensure_ascii=False)
+
 # README
 rows=[]
 for d in sorted(glob.glob('/verif/seeded/C*-*/')):
@@ -166,7 +175,7 @@ for d in sorted(glob.glob('/verif/seeded/C*-*/')):
     m=json.load(open(d+'meta.json'))
     m['check_result_quick']=res.get(name,m.get('check_result_quick',''))[:200]
     json.dump(m,open(d+'meta.json','w'),indent=1,ensure_ascii=False)
-    rows.append((name,m['property'],m.get('round',1),res.get(name,'?'),m.get('history','')))
+    rows.append((name,m['property'],m.get('round',1),res.get(name,'?'),m.get('history','') + ((" [also verified: caught by the check of %s]" % m['also_caught_by_check_of']) if m.get('also_caught_by_check_of') else "")))
 out=["# Seeded changes","",
 "Round 1: forty changes, two per property; round 2: sixty subtler ones (three per property); round 3: fifty-seven that look for dimensions a harness rarely varies (narrow inputs, multi-step histories, interleavings, cooperating sites). Each was written by an independent sub-agent that was given only the property text and its own scratch worktree (nothing from /verif), and confirmed here with `seeded/confirm.sh` in a scratch worktree: it applies, compiles, the unedited repository suite passes with it, its demonstration fails with it and passes without it. `seeded/rerun.sh` re-runs all of them against the check of their property (RESULTS.txt). `agent-notes.md` in each directory is the author's description of the changes of that property/round; `meta.json` says what the change breaks, what it needs in order to manifest, what was run and the history of the check against it.","",
 "| change | property | round | quick check of its property | history |","|---|---|---|---|---|"]
